@@ -14,6 +14,7 @@ Local Open Scope N_scope.
 
 Section Frame.
 Variable cap : nat.
+Variable ep : N.
 Variable lam : fev -> N.
 Variable vals : list (N * N).
 Hypothesis Hvals : vals_ok vals.
@@ -22,18 +23,18 @@ Notation ws := (map snd vals).
 Notation nv := (length vals).
 Notation q := (ElectionSpec.quorum_of ws).
 Notation fcn := (fc_n ws q).
-Notation ae := (to_aevent lam vals).
+Notation ae := (to_aevent ep lam vals).
 Notation rts := (roots_at node nd_fr nd_spf).
 Notation qon := (quorum_on node nd_cr nd_fr nd_spf fcn ws q).
-Notation Core := (Core lam vals).
+Notation Core := (Core ep lam vals).
 Notation cache_inv := (cache_inv vals).
 Notation slot := (slot vals).
 
 Lemma root_val_exists st es T Dr R r : Core st es T Dr R -> In r (l_roots st) -> v_exists vals (r_val r) = true.
 Proof.
-  intros C Hr. apply (co_roots _ _ _ _ _ _ _ C) in Hr as [n [f [Hn [_ ->]]]].
+  intros C Hr. apply (co_roots _ _ _ _ _ _ _ _ C) in Hr as [n [f [Hn [_ ->]]]].
   rewrite slot_val. apply v_exists_vid; [apply (vals_nodup vals Hvals)|].
-  apply (cr_lt vals T n (Core_wfT _ _ _ _ _ _ _ C)). apply (co_sub _ _ _ _ _ _ _ C). exact Hn.
+  apply (cr_lt vals T n (Core_wfT _ _ _ _ _ _ _ _ C)). apply (co_sub _ _ _ _ _ _ _ _ C). exact Hn.
 Qed.
 
 (* forklessCausedByQuorumOn(e, g) over the stored roots = the reference's quorum_on over the nodes R *)
@@ -45,21 +46,21 @@ Proof.
              (fun r Hr => root_val_exists _ _ _ _ _ r C Hr)).
   rewrite (vq_eq vals Hvals), vsum_wsP. unfold quorum_on. f_equal.
   change (wsumP ws ?P) with (wsP ws P). apply wsP_ext. intros i Hi. rewrite map_length in Hi.
-  destruct (frame_roots_for lam vals st es T Dr R g C) as [ms [RF [IM [EM _]]]].
+  destruct (frame_roots_for ep lam vals st es T Dr R g C) as [ms [RF [IM [EM _]]]].
   unfold roots_of. change (filter (fun r => r_frame r =? g) (l_roots st)) with (get_frame_roots st g). rewrite EM.
-  pose proof (Core_wfT _ _ _ _ _ _ _ C) as W. pose proof (co_sub _ _ _ _ _ _ _ C) as Sub.
+  pose proof (Core_wfT _ _ _ _ _ _ _ _ C) as W. pose proof (co_sub _ _ _ _ _ _ _ _ C) as Sub.
   apply eq_true_iff_eq. unfold ElectionSpec.by_cr. rewrite !existsb_exists. split.
   - intros [r [Hr H]]. apply in_map_iff in Hr as [m [<- Hm]]. apply andb_prop in H as [Hv Hf].
     rewrite slot_val in Hv. rewrite slot_id in Hf. apply N.eqb_eq in Hv.
     apply IM in Hm. assert (HmT : In m T) by (apply Sub; unfold roots_at in Hm; apply filter_In in Hm; apply Hm).
-    rewrite (fcp_sim lam vals Hvals st es T Dr R na m C Ha HmT) in Hf.
+    rewrite (fcp_sim ep lam vals Hvals st es T Dr R na m C Ha HmT) in Hf.
     exists m. split; [unfold obs; apply filter_In; auto|]. rewrite andb_true_r. apply Nat.eqb_eq.
     apply (vid_inj vals); auto; [apply (vals_nodup vals Hvals) | apply (cr_lt vals T m W HmT)].
   - intros [m [Hm H]]. unfold obs in Hm. apply filter_In in Hm as [Hm Hf]. apply andb_prop in H as [Hc _].
     apply Nat.eqb_eq in Hc. assert (HmT : In m T) by (apply Sub; unfold roots_at in Hm; apply filter_In in Hm; apply Hm).
     exists (slot m g). split; [apply in_map_iff; exists m; split; [reflexivity | apply IM; exact Hm]|].
     rewrite slot_val, slot_id, Hc, N.eqb_refl. cbn [andb].
-    rewrite (fcp_sim lam vals Hvals st es T Dr R na m C Ha HmT). exact Hf.
+    rewrite (fcp_sim ep lam vals Hvals st es T Dr R na m C Ha HmT). exact Hf.
 Qed.
 
 (* ---------- calcFrameIdx through the LRU = the pure computation; the cache stays sound ---------- *)
@@ -67,7 +68,7 @@ Lemma get_frame_roots_fcc st c f : get_frame_roots (set_fcc st c) f = get_frame_
 Proof. reflexivity. Qed.
 
 Lemma calc_loop_sim st es T Dr R k Ta na e maxf : Core st es T Dr R -> incl Ta T -> In na Ta ->
-  ~ is_temp k (nd_id na) -> a_id e = nd_id na ->
+  ~ k (nd_id na) -> a_id e = nd_id na ->
   forall fuel st0 f, (exists c0, st0 = set_fcc st c0) -> cache_inv k st0 Ta R ->
   exists c', calc_loop cap fuel st0 e f maxf =
                (calc_pure fuel vals (l_idx st) (l_roots st) (nd_id na) f maxf, set_fcc st c') /\
@@ -78,9 +79,9 @@ Proof.
   - destruct (negb (f <? maxf)).
     + exists c0. split; [reflexivity | exact CI].
     + unfold fc_by_quorum_on. rewrite Eid. rewrite get_frame_roots_fcc. cbn [l_vals set_fcc].
-      rewrite (co_vals _ _ _ _ _ _ _ C).
-      destruct (frame_roots_for lam vals st es T Dr R f C) as [ms [RF _]].
-      destruct (fcq_loop_sim cap lam vals Hvals st es T Dr R k Ta R na C Sa (co_sub _ _ _ _ _ _ _ C) Ha NT
+      rewrite (co_vals _ _ _ _ _ _ _ _ C).
+      destruct (frame_roots_for ep lam vals st es T Dr R f C) as [ms [RF _]].
+      destruct (fcq_loop_sim cap ep lam vals Hvals st es T Dr R k Ta R na C Sa (co_sub _ _ _ _ _ _ _ _ C) Ha NT
                   (get_frame_roots st f) ms RF (set_fcc st c0) (new_counter vals) (ex_intro _ c0 eq_refl) CI) as [c1 [E1 CI1]].
       rewrite E1. unfold qp, roots_of. change (filter (fun r => r_frame r =? f) (l_roots st)) with (get_frame_roots st f).
       destruct (fcq_pure vals (l_idx st) (nd_id na) (get_frame_roots st f) (new_counter vals)).
@@ -89,7 +90,7 @@ Proof.
 Qed.
 
 Lemma calc_frame_sim st es T Dr R k Ta na e co : Core st es T Dr R -> incl Ta T -> In na Ta ->
-  ~ is_temp k (nd_id na) -> a_id e = nd_id na -> cache_inv k st Ta R ->
+  ~ k (nd_id na) -> a_id e = nd_id na -> cache_inv k st Ta R ->
   exists c', calc_frame cap es st e co = (frame_pure es vals (l_idx st) (l_roots st) e co, set_fcc st c') /\
              cache_inv k (set_fcc st c') Ta R.
 Proof.
@@ -163,7 +164,7 @@ Qed.
 
 Lemma no_root_at_zero st es T Dr R r : Core st es T Dr R -> In r (l_roots st) -> r_frame r <> 0.
 Proof.
-  intros C Hr. apply (co_roots _ _ _ _ _ _ _ C) in Hr as [n [f [_ [Hr ->]]]]. rewrite slot_frame.
+  intros C Hr. apply (co_roots _ _ _ _ _ _ _ _ C) in Hr as [n [f [_ [Hr ->]]]]. rewrite slot_frame.
   unfold is_root_at in Hr. apply andb_prop in Hr as [Hr _]. lia.
 Qed.
 
@@ -177,13 +178,13 @@ Hypothesis Hid : a_id x = eid (fe e).
 Hypothesis Hsp : a_self_parent x = self_parent (fe e).
 
 Lemma new_event_facts : wfTD vals T0 Dr0 /\ parents_known T0 e /\ ev_wf T0 e /\ r_frame_ok vals T0 n = true.
-Proof. pose proof (co_wf _ _ _ _ _ _ _ HC) as W. inversion W; subst. auto. Qed.
+Proof. pose proof (co_wf _ _ _ _ _ _ _ _ HC) as W. inversion W; subst. auto. Qed.
 
 Lemma new_spf : spf_of es x = Ok (nd_spf n) /\ (a_self_parent x <> None -> 1 <= nd_spf n).
 Proof.
   destruct new_event_facts as (W0 & PK & [S1 S2] & FO). split.
   - apply (spf_of_sim es T0 Dr0 e x W0); auto.
-    intros e0 He0. apply (co_es _ _ _ _ _ _ _ HC); [right; exact He0|].
+    intros e0 He0. apply (co_es _ _ _ _ _ _ _ _ HC); [right; exact He0|].
     destruct (event_node vals T0 Dr0 e0 W0 He0) as [m [Hm [Em _]]]. exists m. auto.
   - rewrite Hsp. unfold n. cbn [mk_node nd_spf]. destruct (self_parent (fe e)) as [sp|] eqn:SP; [|congruence]. intros _.
     assert (Hs : 1 < eseq (fe e)).
